@@ -192,10 +192,20 @@ def pi_relations(chk, X, pis, site_prefix):
     for (a, lo, hi), (a2, lo2, hi2) in zip(wid, nar):
         if lo > lo2 or hi2 > hi:
             chk.report(site_prefix + "get_PI:contains", f"widest PI [{lo},{hi}] does not contain narrowest [{lo2},{hi2}] at coverage {a}", {"kind": "oracle", "X": X, "alpha": a})
+    g = grid()
+
+    def exists(a):
+        """the narrowest interval exists at coverage a: the two alpha-cuts (own nearest-level reference) do not overlap, touching included"""
+        lo_level = (1 - a) / 2
+        return X[1][nearest_ref(g, lo_level)] <= X[0][nearest_ref(g, 1 - lo_level)]
     for seq, name in ((wid, "widest"), (nar, "narrowest")):
         for (a1, lo1, hi1), (a2, lo2, hi2) in zip(seq, seq[1:]):
             if lo2 > lo1 or hi2 < hi1:
-                chk.report(site_prefix + f"get_PI:{name}:monotone", f"{name} PI is not monotone in the coverage level: {a1} -> [{lo1},{hi1}], {a2} -> [{lo2},{hi2}]",
+                # where the narrowest interval does not exist the library answers with the widest (open finding O24, its own site); a failure between
+                # two coverage levels at which it does exist is a different matter
+                both = name == "narrowest" and exists(a1) and exists(a2)
+                chk.report(site_prefix + f"get_PI:{name}:monotone" + ("-where-it-exists" if both else ""),
+                           f"{name} PI is not monotone in the coverage level: {a1} -> [{lo1},{hi1}], {a2} -> [{lo2},{hi2}]" + (" (the narrowest interval exists at both levels)" if both else ""),
                            {"kind": "oracle", "X": X, "alpha": [a1, a2], "style": name})
                 break
 
